@@ -165,6 +165,22 @@ def serial_outcomes(init, ops):
 
 # ---- generator -----------------------------------------------------------------------------------
 def gen_case(rng, i):
+    if i % 8 == 5:
+        # typed inherited state: an edit block that changes fields only the stored (child) class has is suspended
+        # while a set_state with an object of the PARENT class (merge into the stored child) starts; the edit
+        # completes first, then the merge is written
+        chain = [1, 2]
+        cls = S.BY_CHAIN[(1, 2)]
+        d = {f: copy.deepcopy(cls.model_fields[f].default) for f in cls.model_fields}
+        init = (list(chain), copy.deepcopy(d))
+        parts = [[("put", "p2", rng.choice([6, 7, "x"]))], [("put", "p1", {"k": rng.choice([1, 2])})]]
+        if rng.random() < 0.5:
+            parts.append([("add", "p2", 1)])
+        ops = [("edit", parts), ("set_state", [1], {"g1": rng.choice([None, 3, "g"]), "cnt": rng.choice([1, 4])})]
+        if rng.random() < 0.4:
+            ops.append(("get", "p2"))
+        sched = [0, 1] + [0] * len(parts) + [1, 1] + [k for k in range(len(ops))] * 2
+        return init, ops, sched
     chain = [0] if rng.random() < 0.65 else [1, 2]
     orc = S.Oracle(chain)
     if chain == [0]:
